@@ -155,13 +155,6 @@ impl RwsFromStr for String {
         ensures r.is_ok(), r.unwrap()@ == s@,
     { s.parse::<String>() }
 }
-impl RwsFromStr for i32 {
-    type E = core::num::ParseIntError;
-    open spec fn parses(s: Seq<char>) -> bool { parses_signed(s, i32::MIN as int, i32::MAX as int) }
-    open spec fn val(s: Seq<char>) -> i32 { signed_val(s) as i32 }
-    #[verifier::external_body]
-    fn rws_from_str(s: &str) -> Result<i32, core::num::ParseIntError> { s.parse::<i32>() }
-}
 // the text of a parse error: some string
 impl RwsToString for core::num::ParseIntError {
     uninterp spec fn ts(&self) -> Seq<char>;
